@@ -103,3 +103,20 @@ Proof.
   - intros [[A ->]|[w [-> Hw]]]; constructor. exact Hw.
 Qed.
 Print Assumptions C14_only_panics_spec.
+
+(* ---- the parse of a text is well defined ---- *)
+From XdrProofs Require Import PegProofs.
+
+(* for EVERY grammar, expression, mode and text: more fuel never changes an answer, so two fuels
+   that both answer agree -- "the grammar accepts / rejects this text" does not depend on the
+   fuel the model is run with (K1 uses 80 + 24 * length and treats PFuel as a broken tie) *)
+Theorem C14_parse_fuel_monotone :
+  forall g f e a q soi s, run g f e a q soi s <> PFuel ->
+  forall f', (f <= f')%nat -> run g f' e a q soi s = run g f e a q soi s.
+Proof. exact run_mono. Qed.
+Print Assumptions C14_parse_fuel_monotone.
+
+Theorem C14_parse_well_defined :
+  forall g f1 f2 text, parse g f1 text <> PFuel -> parse g f2 text <> PFuel -> parse g f1 text = parse g f2 text.
+Proof. exact parse_fuel_irrelevant. Qed.
+Print Assumptions C14_parse_well_defined.
